@@ -92,6 +92,7 @@ let parse_event (cfgs : config array) (tok : string) : event =
          | _ -> failwith tok in
        EServe (str_of_hex a, List.map ent (split ',' t))
      | _ -> failwith tok)
+  | "CN" -> ECensus (nat_tail tok 2)
   | "QQ" -> EQuiesce
   | _ -> failwith ("event " ^ tok)
 
